@@ -38,8 +38,8 @@ theorem requests_consecutive (n : Int) (c : Nat) (fuel : Nat) :
 /-- the sparse probe, the patch-centre pass and the writing pass all go through the same iterator;
     the glue that makes the number of passes 1 (or 2 when centres are generated) is pinned -/
 theorem probe_and_passes_pinned :
-    Gen.pinDataProbe = "5d05ebafcf58b499" ∧ Gen.pinRandomProbe = "36fdb833175d3fab" ∧
-    Gen.pinRandomIter = "0df76cfcd2e3ce09" := by decide
+    Gen.pinDataProbe = "ace9bc8216460ef9" ∧ Gen.pinRandomProbe = "0163df6a58e1fbdd" ∧
+    Gen.pinRandomIter = "68b6757a4ca11947" := by decide
 
 /-! non-vacuity -/
 example : readAll [1, 2, 3, 4, 5, 6, 7] 3 = [[1, 2, 3], [4, 5, 6], [7]] := by decide
